@@ -29,7 +29,7 @@ def gen_arrays(rng, nprng, count):
     out = []
     for i in range(count):
         kind = rng.choice(['gauss', 'gauss', 'gauss', 'ties', 'mono', 'anti', 'constU', 'constV', 'constBoth',
-                           'outside', 'tiny', 'indep', 'tau0'])
+                           'outside', 'tiny', 'indep', 'tau0', 'strong', 'strong', 'edge'])
         n = rng.choice([2, 3, 4, 5, 8, 20, 60, 150, 400])
         if kind in ('gauss', 'ties'):
             rho = rng.uniform(-0.95, 0.95)
@@ -37,6 +37,20 @@ def gen_arrays(rng, nprng, count):
             X = stats.norm.cdf(z)
             if kind == 'ties':
                 X = np.round(X, rng.choice([1, 1, 2]))
+        elif kind == 'strong':
+            # near-(anti)monotone: a sorted sequence with a few adjacent transpositions => |tau| in (0.9, 1)
+            n = max(n, 20)
+            u = np.sort(nprng.uniform(0.01, 0.99, size=n))
+            v = u.copy()
+            for _ in range(rng.randrange(1, max(2, n // 6))):
+                i = rng.randrange(n - 1)
+                v[i], v[i + 1] = v[i + 1], v[i]
+            X = np.column_stack((u, v if rng.random() < 0.5 else 1 - v))
+        elif kind == 'edge':
+            # values just outside [0,1] by less than float32 eps, and exactly on the boundary
+            X = nprng.uniform(size=(max(n, 3), 2))
+            X[rng.randrange(len(X)), rng.randrange(2)] = rng.choice([1 + 1e-8, -1e-10, float(np.nextafter(1.0, 2.0)),
+                                                                      float(np.nextafter(0.0, -1.0)), 0.0, 1.0])
         elif kind == 'mono':
             u = np.sort(nprng.uniform(size=n))
             X = np.column_stack((u, u ** rng.choice([0.5, 1, 2])))
@@ -225,6 +239,8 @@ def search(ctx, deep):
                         cls = 'calibration'
                         if fam == 'frank' and abs(tau) < 0.03:
                             cls = 'calibration-inaccurate-near-zero-tau'
+                        elif fam == 'frank' and abs(th) >= 690.0 and abs(tau) >= 0.994:
+                            cls = 'theta-clamped-at-solver-bound'
                         bad(cls, {'theta': th, 'tau(theta)-tau': err}, f'theoretical tau of theta equals the sample tau (|err| <= {tol})')
                 if not admissible:
                     cls = 'inadmissible-accepted'
